@@ -235,6 +235,8 @@ struct Env {
     threads: RefCell<Vec<Option<loom::thread::Thread>>>,
     /// initial Arc handles waiting for their owner thread: [arc][thread]
     arc_init: RefCell<Vec<Vec<Option<LArc>>>>,
+    /// handles returned by threads at their end: [arc]
+    arc_returned: RefCell<Vec<Vec<LArc>>>,
 }
 
 struct Ctx {
@@ -327,6 +329,11 @@ impl Drop for Env {
     fn drop(&mut self) {
         for rx in self.receivers.borrow_mut().drain(..).flatten() {
             std::mem::forget(rx);
+        }
+        for hs in self.arc_returned.borrow_mut().drain(..) {
+            for h in hs {
+                std::mem::forget(h);
+            }
         }
         for slots in self.arc_init.borrow_mut().drain(..) {
             for h in slots.into_iter().flatten() {
@@ -612,6 +619,16 @@ fn exec(cx: &mut Ctx, op: &Op, pc: usize) -> Option<u64> {
             None
         }
         Op::ArcGive { .. } => unimplemented!(),
+        Op::ArcReturn { r } => {
+            let hs: Vec<LArc> = cx.arcs[r as usize].drain(..).collect();
+            env.arc_returned.borrow_mut()[r as usize].extend(hs);
+            None
+        }
+        Op::ArcCollect { r } => {
+            let hs: Vec<LArc> = env.arc_returned.borrow_mut()[r as usize].drain(..).collect();
+            cx.arcs[r as usize].extend(hs);
+            None
+        }
         Op::TrackNew { k } => {
             // no-op if the slot is occupied
             if cx.tracks[k as usize].is_none() {
@@ -699,6 +716,7 @@ fn model_body(p: StdArc<Program>) {
         cells: (0..p.n_cell).map(|_| loom::cell::UnsafeCell::new(0u64)).collect(),
         join: RefCell::new((0..nt).map(|_| None).collect()),
         threads: RefCell::new((0..nt).map(|_| None).collect()),
+        arc_returned: RefCell::new((0..p.arcs.len()).map(|_| Vec::new()).collect()),
         arc_init: RefCell::new(arc_init),
         p: p.clone(),
     });
